@@ -192,6 +192,23 @@ func handleFmt(raw json.RawMessage) interface{} {
 		}
 		shapes = append(shapes, shape{"plain", args, want.String(), c.Err != "" || numeric})
 	}
+	// a template the spec rejects is rejected WHATEVER the argument list is: number lists of every length up to the number of
+	// opening braces (so that a miscount of arguments is never the only reason for the error that is observed)
+	if c.Err != "" {
+		nb := 0
+		for _, s := range c.Tpl {
+			if s == "{" {
+				nb++
+			}
+		}
+		for n := 0; n <= nb; n++ {
+			a := []r.Element{}
+			for i := 0; i < n; i++ {
+				a = append(a, value.NewNumber(fmtNums[(c.Rep+i)%len(fmtNums)]))
+			}
+			shapes = append(shapes, shape{fmt.Sprintf("numbers-x%d", n), a, "", true})
+		}
+	}
 	// shape 3/4: one argument short / one long
 	if c.Err == "" {
 		n := c.NPh
